@@ -21,7 +21,7 @@ IN_DTYPES = ["int8", "int16", "int32", "int64", "uint8", "uint16", "uint32",
              "uint64", "float32", "float64"]
 OUT_TYPES = ["uint8", "uint16", "uint32", "uint64", "float32"]
 FORMS = ["contig", "strided", "fortran2d", "transposed", "readonly", "moved4d",
-         "readonly_strided"]
+         "readonly_strided", "bigendian"]
 F32_MAX = float(np.finfo(np.float32).max)
 
 
@@ -111,6 +111,9 @@ def build(case):
     if form == "readonly":
         a.setflags(write=False)
         return a
+    if form == "bigendian":
+        # data of a big-endian file, as the image library hands it over
+        return a.astype(dt.newbyteorder(">"))
     if form == "moved4d":
         b = np.asfortranarray(a.reshape(n, 1, 1))[..., np.newaxis]
         return b
@@ -127,7 +130,10 @@ def check_case(ctx, case):
     arr = build(case)
     exact = [x.item() for x in np.array(values, dtype=np.dtype(in_dtype))]
     before = arr.tobytes()
-    t = get_chunk_dtype_transformer(in_dtype, out, warn=False)
+    # callers build the transformer from the dtype of the array they hold
+    t = get_chunk_dtype_transformer(
+        arr.dtype if case["form"] == "bigendian" else in_dtype, out,
+        warn=False)
     try:
         with np.errstate(all="ignore"):
             # one transformer converts every chunk of a volume: call it on
